@@ -13,7 +13,7 @@ ROUND3_CAUGHT = {"C02_9", "C10_7", "C09_7", "C09_9", "C04_7", "C04_9", "C08_8", 
                  "C11_7", "C11_8", "C11_9", "C12_7", "C12_8", "C12_9", "C13_7", "C13_8", "C13_9", "C14_9", "C15_8", "C16_7", "C16_8", "C17_7", "C17_9",
                  "C18_7", "C18_8", "C19_8", "C20_7", "C20_8", "C20_9"}
 ROUND4_CAUGHT = {"C10_11", "C09_11", "C08_10", "C07_11", "C01_11", "C03_12", "C05_10", "C05_12", "C15_11", "C14_11", "C14_12", "C16_10", "C16_12", "C20_11",
-                 "C12_10", "C12_11", "C13_10", "C13_11", "C11_11", "C11_12", "C18_12", "C19_11", "C19_12"}
+                 "C12_10", "C12_11", "C13_10", "C13_11", "C11_11", "C11_12", "C18_12", "C19_11", "C19_12", "C17_10", "C17_11"}
 ROUND2_CAUGHT |= ROUND3_CAUGHT | ROUND4_CAUGHT
 for _p in range(1, 21):
     for _i in (4, 5, 6, 7, 8, 9, 10, 11, 12):
